@@ -46,7 +46,11 @@ def find_core_tokens(string, root):
                 delimiters.append(Delimiter(start, i if not escaped else i - 1, string))
                 in_delimiter_run = None
                 escaped = False
-            _code_matches.append(code_match)
+            # the pattern also consumes escaped backslashes in front of the code span
+            # (to know that the backticks are not escaped); they are not part of the token.
+            _code_matches.append(MatchObj(code_match.start(1), code_match.end(),
+                                          (code_match.start(1), code_match.end(1), code_match.group(1)),
+                                          (code_match.start(2), code_match.end(2), code_match.group(2))))
             in_image = False
             i = code_match.end()
             code_match = code_pattern.search(string, i)
